@@ -17,3 +17,5 @@ PROPERTY FaultTransparent
 PROPERTY SpecIsLegal
 PROPERTY NoPrefixMatch
 PROPERTY UntouchedFireOnce
+PROPERTY NextDatagramProcessed
+PROPERTY HostileChangesNothing
